@@ -58,6 +58,9 @@ def parseAct (w : String) : Option Act :=
     | 'h' => (numSlot r).map (.cond · 0)
     | 's' => (numSlot r).map (.cond · 1)
     | 'E' => (numLt r 1000).map .enableF
+    | 'y' => (numLt r 1000).map .reborn
+    | 'D' => (numLt r 1000).map (.ctlL false)
+    | 'M' => (numLt r 1000).map (.ctlL true)
     | 't' => (numLt r nFnMax).map .arm
     | 'n' => (numLt r nFnMax).map .post
     | _ => none
@@ -66,7 +69,7 @@ def parseScript (w : String) (self : Nat) : Option (List Act) :=
   if w == "-" then some [] else
   (w.splitOn ",").mapM fun item => do
     let a ← parseAct item
-    if a == .destroy self then none else some a
+    if a == .destroy self || a == .reborn self then none else some a
 
 /-- one pass of a run, for the comparison of the two back-ends (`cmp`): a digest of the model state
 before the pass, whether the pass satisfies the order-independence criterion, the order in which the
@@ -74,7 +77,9 @@ kernel listed the ready descriptors, and the callbacks made (sorted) -/
 structure PassRec where
   digest : String
   syn : Bool
-  quiet : Bool := true     -- no ready descriptor is hung up / in error (there the engines report different masks by design)
+  quiet : Bool := true     -- no ready descriptor is hung up / in error (there the engines report different masks)
+  lag : Bool := false      -- the kernel's epoll table was not the loop's at this wait (a MOD / DEL had been refused)
+  loud : List Nat := []    -- the descriptors that are hung up / in error at this wait (a function of the state, hence of the digest)
   order : List Nat
   keys : List (Nat × Nat)
 
@@ -91,6 +96,8 @@ structure Qs where
   clock : Nat := 0                    -- virtual milliseconds: every `pass` advances it by 1 before anything else happens
   armed : List (Nat × Nat) := []      -- (callable, deadline)
   q : List (Option Nat) := []
+  real : List (Nat × Nat) := []       -- the epoll table the KERNEL holds (descriptor, tbox mask; absent = not registered): see `realAfter`
+  lag : Bool := false                 -- an EPOLL_CTL_MOD / _DEL was refused at some point of this run
 
 structure TAcc where
   s : State := init
@@ -110,6 +117,10 @@ structure TAcc where
 
 def fail (a : TAcc) (msg : String) : TAcc := { a with err := some s!"op#{a.nops} {msg}" }
 
+/-- a divergence on something a harmless rewrite may change (`reject M: …`): which `epoll_ctl` calls the loop issues once the kernel's
+table lags behind (skipping a MOD that changes nothing, retrying a failed call) -/
+def failM (a : TAcc) (msg : String) : TAcc := { a with err := some s!"M: op#{a.nops} {msg}" }
+
 def expectLine (a : TAcc) (want : String) (what : String) : TAcc :=
   match a.tl with
   | l :: rest => if l == want then { a with tl := rest }
@@ -121,6 +132,7 @@ def expectLine (a : TAcc) (want : String) (what : String) : TAcc :=
 def actTags (s : State) : Act → List String
   | .init e _ _ _ => if (s.evs e).alive && (s.evs e).enabled then ["init-while-enabled"] else []
   | .destroy e => if (s.evs e).alive && (s.evs e).enabled then ["destroy-while-enabled"] else []
+  | .reborn e => if (s.evs e).alive then (if (s.evs e).enabled then ["reborn-while-enabled"] else ["reborn"]) else []
   | .enable e => if (s.evs e).alive && (s.evs e).enabled then ["enable-twice"] else []
   | .enableF e =>
     let v := s.evs e
@@ -134,6 +146,28 @@ def actTags (s : State) : Act → List String
     else []
   | _ => []
 
+def realOf (real : List (Nat × Nat)) (f : Nat) : Nat := ((real.find? (·.1 == f)).map (·.2)).getD 0
+
+/-- **the kernel's own epoll table** across one model transition `s → s'` that issues at most one `epoll_ctl` per descriptor
+(one `enable()` / `disable()`, also inside `delete`, `onEvent` of a one-shot event): which call `reloadEpoll` issued is read off
+the cached mask before / after (0 → m: ADD, m → m': MOD - also when m' = m -, m → 0: DEL; a call was issued iff the subscriber vector
+changed), and the kernel answers as Linux does: ADD on a registered descriptor EEXIST, on a closed number EBADF, MOD on an
+unregistered one ENOENT, each leaving the entry as it was; `rA` / `rMD` = the interposer refuses the ADD / the MOD or DEL of this
+call; closing the descriptor drops the entry.  Without refused MOD / DEL this is `State.kern` (checked at every wait). -/
+def realAfter (s s' : State) (real : List (Nat × Nat)) (rA rMD : Bool) : List (Nat × Nat) :=
+  slotList.filterMap fun f =>
+    let cur := realOf real f
+    let kb := match s.recs f with | some r => (r.kev, r.subs) | none => (0, [])
+    let ka := match s'.recs f with | some r => (r.kev, r.subs) | none => (0, [])
+    let v :=
+      if s'.gen f != s.gen f then 0
+      else if kb.2 == ka.2 then cur
+      else if kb.1 == 0 then
+        (if ka.1 == 0 then cur else if rA then cur else if cur != 0 then cur else if s'.isOpen f then ka.1 else 0)
+      else if ka.1 != 0 then (if rMD then cur else if cur == 0 then 0 else ka.1)
+      else (if rMD then cur else 0)
+    if v == 0 then none else some (f, v)
+
 /-- one API call: the model's `act`, and for `arm`/`post` the acceptor's queues (the harness answers 0
 for a callable that was never defined; `enable()` of an armed one-shot timer changes nothing) -/
 def actQ (s : State) (q : Qs) (x : Act) : (State × Bool) × Qs :=
@@ -141,7 +175,13 @@ def actQ (s : State) (q : Qs) (x : Act) : (State × Bool) × Qs :=
   | .arm k => if k < q.nfn then ((s, true), { q with armed := if q.armed.any (·.1 == k) then q.armed else q.armed ++ [(k, q.clock + 1)] })
               else ((s, false), q)
   | .post k => if k < q.nfn then ((s, true), { q with q := q.q ++ [some k] }) else ((s, false), q)
-  | _ => (act s x, q)
+  | _ =>
+    let r := act s x
+    let rA := match x with | .enableF _ => true | _ => false
+    let rMD := match x with | .ctlL _ _ => true | _ => false
+    let real' := realAfter s r.1 q.real rA rMD
+    -- a refused MOD / DEL counts once it left the kernel with something else than the loop believes
+    (r, { q with real := real', lag := q.lag || (rMD && slotList.any (fun f => realOf real' f != r.1.kern f)) })
 
 def scriptRets (s : State) (q : Qs) : List Act → State × Qs × String × List String
   | [] => (s, q, "", [])
@@ -158,6 +198,7 @@ structure Rp where
   qs : Qs := {}
   out : Exp := []
   tags : List String := []
+  rb : List Nat := []      -- event objects deleted and re-created at the same address by a callback of this pass
 
 def rpEvent (w : Wait) (f m : Nat) (p : Rp) (e : Nat) : Rp :=
   let v := p.s.evs e
@@ -165,11 +206,13 @@ def rpEvent (w : Wait) (f m : Nat) (p : Rp) (e : Nat) : Rp :=
   if !r.2 then { p with s := r.1, tags := p.tags ++ (if v.alive then ["mask-miss"] else ["dead-event"]) }
   else
     let l1 := s!"F {e} {m} en={bitsOf r.1}"
-    let sr := scriptRets r.1 p.qs v.script
+    let sr := scriptRets r.1 { p.qs with real := realAfter p.s r.1 p.qs.real false false } v.script
     let rets := if sr.2.2.1.isEmpty then "-" else sr.2.2.1
     let l2 := s!"E {e} rets={rets} en={bitsOf sr.1}"
     let t := (if v.oneshot then ["oneshot"] else [])
-      ++ (if v.script.any (fun x => match x with | .destroy _ => true | _ => false) then ["cb-destroy"] else [])
+      ++ (if v.script.any (fun x => match x with | .destroy _ => true | .reborn _ => true | _ => false) then ["cb-destroy"] else [])
+      ++ (if v.script.any (fun x => match x with | .reborn _ => true | _ => false) then ["cb-reborn"] else [])
+      ++ (if p.rb.contains e then ["aba-callback"] else [])
       ++ (if v.script.any (fun x => match x with | .close _ => true | _ => false) then ["cb-close"] else [])
       ++ (if v.script.any (fun x => match x with | .init _ _ _ _ => true | _ => false) then ["cb-init"] else [])
       ++ (if slotList.any (fun g => sr.1.gen g != r.1.gen g) then ["cb-fd-reuse"] else [])
@@ -177,7 +220,8 @@ def rpEvent (w : Wait) (f m : Nat) (p : Rp) (e : Nat) : Rp :=
       ++ (if v.script.any (fun x => match x with | .arm _ => true | .post _ => true | _ => false) then ["cb-arm-post"] else [])
       ++ (if m &&& 4 != 0 then ["except-ready"] else [])
       ++ (if m &&& v.mask % 8 != m then ["cb-mask-beyond-subscription"] else []) ++ sr.2.2.2
-    { s := sr.1, qs := sr.2.1, out := p.out ++ [(l1, p.s), (l2, r.1)], tags := p.tags ++ t }
+    { s := sr.1, qs := sr.2.1, out := p.out ++ [(l1, p.s), (l2, r.1)], tags := p.tags ++ t,
+      rb := p.rb ++ v.script.filterMap (fun x => match x with | .reborn j => some j | _ => none) }
 
 def rpLoop (w : Wait) (f m : Nat) : Rp → List Nat → Rp
   | p, [] => p
@@ -186,7 +230,7 @@ def rpLoop (w : Wait) (f m : Nat) : Rp → List Nat → Rp
     | none => { p with tags := p.tags ++ ["loop-break"] }
     | some r => if r.subs.contains e then rpLoop w f m (rpEvent w f m p e) rest
                 else rpLoop w f m { p with tags := p.tags ++
-                        [if (p.s.evs e).alive then "skip-disabled-sibling" else "skip-destroyed-sibling"] } rest
+                        [if p.rb.contains e then "skip-reborn-elsewhere" else if (p.s.evs e).alive then "skip-disabled-sibling" else "skip-destroyed-sibling"] } rest
 
 def rpFd (w : Wait) (p : Rp) (fm : Nat × Nat) : Rp :=
   match findRec w p.s fm.1 with
@@ -289,8 +333,13 @@ def doPass (a0 : TAcc) : TAcc :=
   | l :: rest =>
     match words l with
     | ["K", i, r] =>
-      let wantI := "i=" ++ interestStr a.be a.s
-      if i != wantI then fail a s!"kernel interest at wait: impl=[{i}] model=[{wantI}]" else
+      -- epoll: the table the kernel really holds (`realAfter`); it is `State.kern` unless a MOD / DEL was refused
+      let lagging := a.be == .epoll && slotList.any (fun f => realOf a.qs.real f != a.s.kern f)
+      if lagging && !a.qs.lag then fail a s!"internal: the acceptor's kernel table {a.qs.real} is not the model's although no MOD / DEL was refused" else
+      let intr : Nat → Nat := fun f => if a.be == .epoll then realOf a.qs.real f else interest a.be a.s f
+      let rep : Nat → Nat := fun f => reportOf a.be (intr f) (actualMask a.s f) (a.s.isOpen f && a.s.hup f) (a.s.isOpen f && a.s.err f)
+      let wantI := "i=" ++ String.ofList (slotList.map fun f => Char.ofNat (48 + intr f))
+      if i != wantI then (if a.qs.lag then failM else fail) a s!"kernel interest at wait: impl=[{i}] model=[{wantI}]" else
       if !r.startsWith "r=" then fail a s!"unparsable K line [{l}]" else
       -- select fails with EBADF iff a closed descriptor is in its sets; then removeInvalidFds runs instead of a dispatch
       let invalid0 := slotList.filter fun f => (a.s.recs f).isSome && !a.s.isOpen f
@@ -302,12 +351,12 @@ def doPass (a0 : TAcc) : TAcc :=
       match (if badf || a.eintr then some [] else parseReady (r.drop 2).toString) with
       | none => fail a s!"unparsable K line [{l}]"
       | some ready =>
-        if !validReady a.be a.s ready then
-          let want := slotList.filterMap fun f => if reported a.be a.s f != 0 then some s!"{f}:{reported a.be a.s f}" else none
+        if !((ready.map (·.1)).Nodup && ready.all (fun fm => fm.2 != 0 && fm.2 == rep fm.1) && (a.be == .epoll || sortedFds ready)) then
+          let want := slotList.filterMap fun f => if rep f != 0 then some s!"{f}:{rep f}" else none
           fail a s!"ready list [{r}] is not what the kernel model says this engine reports ({want}): distinct descriptors in back-end order, each with interest ∩ readiness plus the hang-up / error bits of that engine"
         else
           let missing := if badf || a.eintr then [] else slotList.filter fun f =>
-            reported a.be a.s f != 0 && !(ready.map (·.1)).contains f
+            rep f != 0 && !(ready.map (·.1)).contains f
           let full := a.be == .epoll && ready.length ≥ a.maxE
           if a.be == .epoll && ready.length > a.maxE then
             fail a s!"epoll_wait returned {ready.length} events, max_loop_entries is {a.maxE}" else
@@ -339,7 +388,7 @@ def doPass (a0 : TAcc) : TAcc :=
           let p3 := before.foldl (rpCall "N" a.fns) { p2 with qs := { p2.qs with q := [] } }
           let tmsS := fired.map (a.fns.getD · [])
           let nxS := before.map (a.fns.getD · [])
-          let st : Step := if badf then .loopBadf invalid0 tmsS invalid nxS else .loop a.be tmsS ready nxS
+          let st : Step := if badf then .loopBadf invalid0 tmsS invalid nxS else if lagging then .loopLag tmsS ready nxS else .loop a.be tmsS ready nxS
           let sm := step a.s st
           if !valid a.s st then fail a "internal: the turn is not a valid model step" else
           if bitsOf sm != bitsOf p3.s || cbKeys sm != cbKeys p3.s then
@@ -358,7 +407,8 @@ def doPass (a0 : TAcc) : TAcc :=
                 let tb := if a.be == .select then "select" else "epoll"
                 let syn := badf || OrderIndepSyn p1.s ready
                 let pr : PassRec := { digest := stateDigest a.s ++ s!" | {order} {before}", syn := syn, order := ready.map (·.1),
-                                      quiet := ready.all (fun fm => quietFd a.s fm.1),
+                                      quiet := ready.all (fun fm => quietFd a.s fm.1), lag := lagging,
+                                      loud := slotList.filter (fun f => !quietFd a.s f && (a.s.recs f).isSome),
                                       keys := sortKeys ((cbKeys p3.s).take ncb) }
                 let tt := (if !fired.isEmpty then ["timer-phase"] else []) ++ (if !before.isEmpty then ["next-phase"] else [])
                   ++ (if !fired.isEmpty && !ready.isEmpty then ["timer+ready"] else [])
@@ -371,6 +421,10 @@ def doPass (a0 : TAcc) : TAcc :=
                   ++ (if ready.any (fun fm => fm.2 &&& interest a.be a.s fm.1 != fm.2) then ["ready-beyond-interest"] else [])
                   ++ (if ready.any (fun fm => !quietFd a.s fm.1 && ncb = 0) then ["hup-unmet-mask"] else [])
                   ++ (if slotList.any (fun f => a.be == .epoll && a.s.isOpen f && a.s.kern f == 0 && interest .select a.s f != 0) then ["dead-registration"] else [])
+                  ++ (if lagging then ["kernel-lags"] else [])
+                  ++ (if lagging && ready.any (fun fm => (findRec (waitOf a.s ready) a.s fm.1).isNone) then ["lag-ready-without-record"] else [])
+                  ++ (if lagging && ready.any (fun fm => fm.2 &&& interest .select a.s fm.1 != fm.2) then ["lag-ready-beyond-wanted"] else [])
+                  ++ (if lagging && slotList.any (fun f => interest .select a.s f &&& realOf a.qs.real f != interest .select a.s f) then ["lag-kernel-misses-wanted"] else [])
                 expectLine { a1 with s := p3.s, qs := p3.qs, pend := after, cur := a1.cur ++ [pr],
                                      tags := a1.tags ++ p3.tags ++ [tg, tb] ++ tt ++ (if syn && ready.length ≥ 2 then ["order-indep-syn"] else []) }
                   ("P en=" ++ bitsOf p3.s) (if badf then "after EBADF pass" else "after pass")
@@ -389,15 +443,21 @@ def stepOp (a : TAcc) (line : String) : TAcc :=
       let rec go (k : Nat) : List PassRec → List PassRec → Option String × List String
         | x :: xs, y :: ys =>
           if x.digest != y.digest then (none, ["cmp-diverged"])
-          else if sortKeys (x.order.map (·, 0)) != sortKeys (y.order.map (·, 0)) then
-            (none, ["cmp-ready-set-differs"])      -- epoll_wait filled its array: the kernel did not report the same descriptors
+          else if x.lag || y.lag then (none, ["cmp-kernel-lags"])
+          else if sortKeys ((x.order.filter (!x.loud.contains ·)).map (·, 0)) != sortKeys ((y.order.filter (!y.loud.contains ·)).map (·, 0)) then
+            (none, ["cmp-ready-set-differs"])      -- epoll_wait filled its array: the kernel did not report the same (quiet) descriptors
           else if !(x.syn && y.syn) then (none, ["cmp-order-dependent"])
-          else if !(x.quiet && y.quiet) then (none, ["cmp-hup-err"])
           else if x.keys != y.keys then
-            (some s!"back-ends disagree in pass {k} although it satisfies OrderIndepSyn: first run {x.keys} (order {x.order}), second run {y.keys} (order {y.order})", [])
+            if x.quiet && y.quiet then
+              (some s!"back-ends disagree in pass {k} although it satisfies OrderIndepSyn: first run {x.keys} (order {x.order}), second run {y.keys} (order {y.order})", [])
+            else
+              -- the third sentence of the statement has no "same kernel report" premise: the same scenario, an order-independent pass,
+              -- different callbacks (event, mask) - on a descriptor that is hung up / in error the engines translate the kernel's answer differently
+              (some s!"back-ends differ hup-err: pass {k} is order-independent, descriptors {x.loud} are hung up / in error; first run callbacks {x.keys} (ready {x.order}), second run callbacks {y.keys} (ready {y.order})", [])
           else
             let r := go (k + 1) xs ys
-            (r.1, (if x.order != y.order && x.order.length ≥ 2 then ["cmp-order-differs"] else []) ++ ["cmp-agree"] ++ r.2)
+            (r.1, (if x.order != y.order && x.order.length ≥ 2 then ["cmp-order-differs"] else []) ++ ["cmp-agree"]
+                  ++ (if !(x.quiet && y.quiet) then ["cmp-hup-err-agree"] else []) ++ r.2)
         | _, _ => (none, [])
       let r := go 1 p a.cur
       match r.1 with
@@ -450,6 +510,7 @@ def stepOp (a : TAcc) (line : String) : TAcc :=
         | .oob _ => ["oob"]
         | .cond _ _ => ["cond"]
         | .enableF _ => ["enableF"]
+        | .ctlL _ _ => ["ctlL"] ++ (if rq.2.lag && !a.qs.lag then ["ctl-mod-del-refused"] else [])
         | .init _ f _ _ => if f ≥ 1023 then [if r.2 then "high-fd-accepted" else "high-fd-refused"] else []
         | _ => []
       expectLine { a with s := r.1, qs := rq.2, tags := a.tags ++ t } ("P ret=" ++ (if r.2 then "1" else "0") ++ " en=" ++ bitsOf r.1) "api result"
